@@ -3,6 +3,9 @@
 package p2p
 
 import (
+	"context"
+
+	"github.com/libp2p/go-libp2p"
 	pubsub "github.com/libp2p/go-libp2p-pubsub"
 )
 
@@ -29,4 +32,49 @@ func (m *P2PMessaging) VerifGossipvalTopics() []string { return m.topics() }
 // VerifGossipvalValidatorCount returns how many validators are registered for the topic.
 func (m *P2PMessaging) VerifGossipvalValidatorCount(topic string) int {
 	return len(m.validatorRegistry[topic])
+}
+
+// VerifGossipvalNewMessagingPublishFails returns a P2PMessaging with empty registries on top of a
+// P2PNode that has a real in-process libp2p host (no listen addresses, no peers) and real
+// gossipsub topics for the given names which are CLOSED, so that every P2PNode.Publish on them
+// fails (pubsub.ErrTopicClosed) -- the situation of a handler output that libp2p refuses to
+// publish. closeFn shuts the host down.
+func VerifGossipvalNewMessagingPublishFails(ctx context.Context, topics []string) (m *P2PMessaging, closeFn func(), err error) {
+	host, err := libp2p.New(libp2p.NoListenAddrs)
+	if err != nil {
+		return nil, nil, err
+	}
+	ps, err := pubsub.NewGossipSub(ctx, host)
+	if err != nil {
+		host.Close()
+		return nil, nil, err
+	}
+	node := NewP2PNode(p2pNodeConfig{})
+	node.host = host
+	node.pubSub = ps
+	for _, name := range topics {
+		topic, err := ps.Join(name)
+		if err != nil {
+			host.Close()
+			return nil, nil, err
+		}
+		if err := topic.Close(); err != nil {
+			host.Close()
+			return nil, nil, err
+		}
+		node.gossipRooms[name] = &gossipRoom{pubSub: ps, topic: topic, self: host.ID(), topicName: name}
+	}
+	m = &P2PMessaging{
+		P2P:               node,
+		gossipTopicNames:  make(map[string]struct{}),
+		handlerRegistry:   make(HandlerRegistry),
+		validatorRegistry: make(ValidatorRegistry),
+	}
+	return m, func() { host.Close() }, nil
+}
+
+// VerifGossipvalHandle is what runHandleMessages does with one message taken from
+// P2P.GossipMessages: P2PMessaging.handle (unmarshal, Handle, SendMessage of every returned message).
+func (m *P2PMessaging) VerifGossipvalHandle(ctx context.Context, msg *pubsub.Message) error {
+	return m.handle(ctx, msg)
 }
